@@ -732,5 +732,6 @@ namespace riddle
     token *tk = nullptr;      // the current lookahead token..
     std::vector<token *> tks; // all the tokens parsed so far..
     size_t pos = 0;           // the current position within tks'..
+    size_t depth = 0;         // the current nesting depth of classes, statements and expressions..
   };
 } // namespace riddle
